@@ -333,6 +333,16 @@ impl<U> Value for StrAs<U> {
 impl<U: UnitTag> MetricValue for StrAs<U> {
     type Unit = U;
 }
+/// promises unit `U` and writes it, with no observations
+struct ZeroAs<U>(PhantomData<fn() -> U>);
+impl<U: UnitTag> Value for ZeroAs<U> {
+    fn write(&self, writer: impl ValueWriter) {
+        writer.metric([], U::UNIT, [], MetricFlags::empty())
+    }
+}
+impl<U: UnitTag> MetricValue for ZeroAs<U> {
+    type Unit = U;
+}
 /// promises unit `U`, writes another unit
 struct BadAs<U>(u64, PhantomData<fn() -> U>);
 impl<U: UnitTag> Value for BadAs<U> {
@@ -343,6 +353,18 @@ impl<U: UnitTag> Value for BadAs<U> {
 }
 impl<U: UnitTag> MetricValue for BadAs<U> {
     type Unit = U;
+}
+/// a metric call with NO observations (legal, and still reported to the format): with unit Seconds,
+/// an own dimension and a flag (`true`), or bare (`false`)
+struct ZeroObs(bool);
+impl Value for ZeroObs {
+    fn write(&self, writer: impl ValueWriter) {
+        if self.0 {
+            writer.metric([], Unit::Second(unit::NegativeScale::One), [("z0_k", "z0_v")], flag_c())
+        } else {
+            writer.metric([], Unit::None, [], MetricFlags::empty())
+        }
+    }
 }
 /// metric in Count with an own dimension (field of the globals entry)
 struct CountWithDim(u64);
@@ -383,6 +405,8 @@ fn base_value(b: &str, mi: &[usize]) -> (DynV, Vec<J>) {
         "err" => (layer(ErrValue), vec![]),
         "empty" => (layer(Distribution::<u64>::default()), vec![]),
         "bad" => (layer(BadAs::<unit::Second>(MAG_U[m(0) % 6], PhantomData)), vec![echo_u(m(0))]),
+        "zero" => (layer(ZeroObs(true)), vec![]),
+        "zeron" => (layer(ZeroObs(false)), vec![]),
         _ => panic!("unknown base value {b}"),
     }
 }
@@ -787,7 +811,7 @@ impl BaseE {
         self.mi.get(field).copied().unwrap_or(0) + slot
     }
 }
-const FIELDS: [&str; 11] = ["str", "u64", "f64", "dur", "distu", "distdur", "mean", "rich", "err", "empty", "bad"];
+const FIELDS: [&str; 13] = ["str", "u64", "f64", "dur", "distu", "distdur", "mean", "rich", "err", "empty", "bad", "zero", "zeron"];
 impl Entry for BaseE {
     fn write<'a>(&'a self, w: &mut impl EntryWriter<'a>) {
         w.timestamp(SystemTime::UNIX_EPOCH + T1);
@@ -804,6 +828,8 @@ impl Entry for BaseE {
         w.value("err", &ErrValue);
         w.value("empty", &Distribution::<u64>::default());
         w.value("bad", &BadAs::<unit::Second>(MAG_U[self.m(10, 0) % 6], PhantomData));
+        w.value("zero", &ZeroObs(true));
+        w.value("zeron", &ZeroObs(false));
     }
     fn sample_group(&self) -> impl Iterator<Item = SampleGroupElement> {
         [("op".into(), "op_v".into()), ("status".into(), "status_v".into())].into_iter()
@@ -1047,6 +1073,8 @@ fn run_full<F: UnitTag + Convert<T>, T: UnitTag>(mags: &[usize]) -> Vec<J> {
         let a: WithUnit<Mean<F>, T> = mean_of::<F>(f).into();
         shape(&mut out, "mean", "f0", i, &a);
     }
+    let a: WithUnit<ZeroAs<F>, T> = ZeroAs::<F>(PhantomData).into();
+    shape(&mut out, "zero", "", 0, &a);
     let a: WithUnit<StrAs<F>, T> = StrAs::<F>(PhantomData).into();
     shape(&mut out, "str", "", 0, &a);
     let a: WithUnit<BadAs<F>, T> = BadAs::<F>(7, PhantomData).into();
